@@ -127,7 +127,7 @@ Proof.
     { unfold st_fapp. rewrite vget_vbuild by exact Hk. unfold st_fabf. rewrite Ha. cbn [andb].
       rewrite vget_vzero. cbn [nmul Rops]. lra. }
     split; [exact Hf|]. unfold st_f. rewrite vget_vbuild by exact Hk.
-    rewrite Hcv', andb_false_r, Hf. unfold oeff. rewrite Ho. cbn [nadd n0 Rops]. lra.
+    rewrite Hcv', andb_false_r, Hf. unfold oeff, weff. rewrite Ho. cbn [nadd n0 Rops]. lra.
 Qed.
 
 (* ---------------------------------------------------------------- one step, lagged convention *)
@@ -804,7 +804,7 @@ Qed.
 (* wf_cfg holds for a lagged configuration with hideJacobian; the history switches applyBias off at its second step *)
 Lemma example_wf_lagged :
   let c := @mkCfg R 1 [0%R] [1%R] [2%Z] [false] 2 1 true false [0%R] false false [false] true [false] true (fun _ => (1/2)%R) in
-  let h := [@mkIn R [(1/2)%R] [1%R] [0%R] [3%R] false true; @mkIn R [(1/2)%R] [0%R] [0%R] [3%R] false false] in
+  let h := [@mkIn R [(1/2)%R] [1%R] [0%R] [3%R] false true [0%R]; @mkIn R [(1/2)%R] [0%R] [0%R] [3%R] false false [0%R]] in
   wf_cfg c /\ c_hidej c = true /\ c_same_step c = false /\ length (ABFModel.trace_of Rops c h) = 2%nat.
 Proof.
   cbn zeta. split; [|split; [|split]]; try reflexivity.
@@ -901,7 +901,7 @@ Proof.
   - intros k Hk. rewrite (Hs k Hk). unfold abf_set_grids. cbn [s_sum]. rewrite vget_vbuild by exact Hk. reflexivity.
 Qed.
 
-Lemma example_event_ok : Forall event_ok [EvStep (@mkIn R [(1/2)%R] [1%R] [0%R] [0%R] false true);
+Lemma example_event_ok : Forall event_ok [EvStep (@mkIn R [(1/2)%R] [1%R] [0%R] [0%R] false true [0%R]);
                                           EvRestart ((fun _ => 2%Z), (fun _ => [1%R]));
                                           EvReload ((fun _ => 0%Z), (fun _ => [0%R]))].
 Proof. repeat constructor; intros b; cbn [fst]; lia. Qed.
@@ -1076,3 +1076,82 @@ Qed.
 Lemma awake_examples : awake 2 (0%Z, false) = true /\ awake 2 (1%Z, false) = false /\ awake 3 (6%Z, true) = true /\
                        awake 1 (5%Z, false) = true.
 Proof. repeat split; reflexivity. Qed.
+
+(* ---------------------------------------------------------------- which applied forces are subtracted *)
+
+(* Closed form of the sample attributed to a step, for EVERY mix of forces applied by Colvars at that step (the ABF
+   force as applied, biases acting through fb [i_o], biases that bypass the extended Lagrangian and act through
+   fb_actual [i_w], the hideJacobian compensation), from any state:
+   - a variable with subtractAppliedForce: the force of the system alone (+ the Jacobian term unless hideJacobian):
+     f_old = colvar::f contains everything that was applied, and all of it is removed;
+   - otherwise, lagged forces: the system force plus the forces of the OTHER biases (both kinds), the ABF force and
+     the hideJacobian compensation being removed;
+   - same-step forces: the system force (nothing of Colvars is in the measured force). *)
+Theorem sample_force_closed_form c s i k :
+  (k < c_nd c)%nat ->
+  let io := (i, snd (abf_step Rops c s i)) in
+  vget Rops (sample_force Rops c io) k
+  = vget Rops (i_e i) k
+    + (if c_same_step c || bget (c_subtract c) k then 0 else oeff Rops c i k + weff Rops c i k)
+    + (if c_hidej c then 0 else vget Rops (i_j i) k).
+Proof.
+  intros Hk. cbn zeta. unfold sample_force. rewrite vget_vbuild by exact Hk.
+  unfold measured, own, jac. cbn [fst snd]. unfold abf_step. cbn [snd o_f o_fapp].
+  destruct (c_same_step c) eqn:Hsame; cbn [orb nadd nsub n0 Rops]; [destruct (c_hidej c); lra|].
+  unfold st_f. rewrite vget_vbuild by exact Hk.
+  destruct (cvapply c i k) eqn:Hcv; cbn [negb].
+  - destruct (bget (c_subtract c) k); destruct (c_hidej c); cbn [andb nadd nsub n0 Rops]; lra.
+  - assert (Ho : bget (c_other c) k = false).
+    { unfold cvapply in Hcv. apply orb_false_iff in Hcv. tauto. }
+    unfold oeff, weff. rewrite Ho.
+    destruct (bget (c_subtract c) k); destruct (c_hidej c); cbn [nadd nsub n0 Rops]; lra.
+Qed.
+
+Corollary subtracted_sample_is_system_force c s i k :
+  (k < c_nd c)%nat -> bget (c_subtract c) k = true ->
+  vget Rops (sample_force Rops c (i, snd (abf_step Rops c s i))) k
+  = vget Rops (i_e i) k + (if c_hidej c then 0 else vget Rops (i_j i) k).
+Proof.
+  intros Hk Hs. pose proof (sample_force_closed_form c s i k Hk) as H. cbn zeta in H. rewrite H, Hs, orb_true_r. lra.
+Qed.
+
+
+(* ---------------------------------------------------------------- script entry points bin / bincount *)
+
+Lemma bound1_in_grid (c : @abf_cfg R) k b : (0 <= b < zget (c_nx c) k)%Z -> bound1 c k b = b.
+Proof.
+  intros [H0 H1]. unfold bound1. cbv zeta.
+  assert (Hrem : Z.rem b (zget (c_nx c) k) = b) by (apply Z.rem_small; lia).
+  destruct (bget (c_periodic c) k); [rewrite Hrem|];
+    (destruct (b <? 0)%Z eqn:E1; [apply Z.ltb_lt in E1; lia|];
+     destruct (zget (c_nx c) k <=? b)%Z eqn:E2; [apply Z.leb_le in E2; lia|]; reflexivity).
+Qed.
+
+Lemma zget_map_seq (f : nat -> Z) (n k : nat) : (k < n)%nat -> zget (map f (seq 0 n)) k = f k.
+Proof.
+  intros Hk. unfold zget. rewrite nth_indep with (d' := f 0%nat) by (rewrite map_length, seq_length; exact Hk).
+  rewrite map_nth. rewrite seq_nth by exact Hk. reflexivity.
+Qed.
+
+Lemma bins_bound_in_grid (c : @abf_cfg R) x : index_ok c (bins Rops c x) = true -> bins_bound Rops c x = bins Rops c x.
+Proof.
+  intros H. unfold bins_bound, bins. apply map_ext_in. intros k Hk.
+  unfold index_ok in H. rewrite forallb_forall in H. specialize (H k Hk).
+  apply andb_true_iff in H. destruct H as [H0 H1]. apply Z.leb_le in H0. apply Z.ltb_lt in H1.
+  apply bound1_in_grid.
+  assert (Hz : zget (bins Rops c x) k
+               = value_to_bin Rops (vget Rops (c_lower c) k) (vget Rops (c_width c) k) (vget Rops x k)).
+  { unfold bins. apply in_seq in Hk. apply zget_map_seq. lia. }
+  rewrite <- Hz. lia.
+Qed.
+
+(* `cv bias a bincount [cv bias a bin]` (and local_sample_count 0) after any history, for values inside the grid:
+   the number of samples attributed to the bin of the current values *)
+Theorem script_count_current c h x :
+  wf_cfg c -> index_ok c (bins Rops c x) = true ->
+  abf_count_current Rops c (fst (abf_run Rops c h)) x
+  = cnt_of (bins Rops c x) (attributed Rops c (ABFModel.trace_of Rops c h)).
+Proof.
+  intros Hwf Hok. unfold abf_count_current. rewrite (bins_bound_in_grid c x Hok).
+  apply (abf_state_is_sample_sum c h (bins Rops c x) Hwf).
+Qed.
